@@ -806,12 +806,14 @@ def gen_ops(rng, net, quick=True):
             else:
                 v = rng.choice([CLOSED, OPEN, ACTIVE] if KCLASS[kind] == 2 else [CLOSED, OPEN, ACTIVE])
                 ops.append("I%d=%d" % (k, v))
-        elif r < 0.8:
+        elif r < 0.78:
             ops.append("p")
-        elif r < 0.9:
+        elif r < 0.86:
             ops.append("u")
-        else:
+        elif r < 0.93 or ops.count("R") >= 2:
             ops.append("g")
+        else:
+            ops.append("R")       # run_sim starts again on the network as it is (flags and statuses stay): real head of run_sim
     ops.append("p")
     return ops
 
@@ -876,23 +878,21 @@ class ImplSim:
         for j, v in enumerate(internal0):
             wn.get_link("L%d" % j)._internal_status = LS(v)
         self.uacts, self.iacts = {}, {}
-        extra = []
         for j, (a, b, k, st) in enumerate(net["links"]):
             link = wn.get_link("L%d" % j)
             for v in (CLOSED, OPEN, ACTIVE):
+                # controls that never fire by themselves; their actions are run by the history and notify the real tracker
                 act = ControlAction(link, "status", LS(v))
                 wn.add_control("cu_%d_%d" % (j, v), Control(SimTimeCondition(wn, "=", 10 ** 9 + j * 3 + v), act))
                 self.uacts[(j, v)] = act
                 iact = _InternalControlAction(link, "_internal_status", LS(v), "status")
-                extra.append(Control(SimTimeCondition(wn, "=", 2 * 10 ** 9 + j * 3 + v), iact))
+                wn.add_control("ci_%d_%d" % (j, v), Control(SimTimeCondition(wn, "=", 2 * 10 ** 9 + j * 3 + v), iact))
                 self.iacts[(j, v)] = iact
         sim = self.sim = wntr.sim.WNTRSimulator(wn)
         sim._model, sim._model_updater = hyd.create_hydraulic_model(wn=wn, HW_approx="default")
         sim._valve_source_checker = core._ValveSourceChecker(wn)
         sim._get_control_managers()
         sim._register_controls_with_observers()
-        for c in extra:
-            sim._change_tracker.register_control(c)
         self.init_exc = None
         try:
             sim._initialize_internal_graph()
@@ -941,6 +941,34 @@ class ImplSim:
         (self.uacts if op[0] == "U" else self.iacts)[(int(j), int(v))].run_control_action()
         link = self.wn.get_link("L%d" % int(j))
         return "C=%s V=%d,%d,%d" % (self.changed(), int(link._user_status), int(link._internal_status), int(link.status))
+
+    def restart(self):
+        """the REAL head of `run_sim` on a new simulator object, up to the first `update_model_for_controls` (i.e. seeding of the
+        previously-isolated sets, model, controls, graph, reference points, presolve + feasibility controls at t = 0, first
+        `_update_internal_graph` / `_get_isolated_junctions_and_links`); returns the observed tokens and segments"""
+        import wntr.sim.hydraulics as hyd
+
+        class _Stop(Exception):
+            pass
+
+        def stop(*a, **k):
+            raise _Stop()
+
+        tr = Trace(self.wntr, self.wn, [KCLASS[l[2]] for l in self.net["links"]], single_line=True)
+        tr.cur = dict(header="", raw=[], segs=[], rows=[], flagged_start=True)
+        sim = self.wntr.sim.WNTRSimulator(self.wn)
+        with tr:
+            saved = hyd.update_model_for_controls
+            hyd.update_model_for_controls = stop
+            try:
+                sim.run_sim()
+                raise RuntimeError("run_sim returned before update_model_for_controls")
+            except _Stop:
+                pass
+            finally:
+                hyd.update_model_for_controls = saved
+        self.sim = sim
+        return tr.cur["raw"], tr.cur["segs"]
 
     def cut_off(self):
         """independent reachability over the links' CURRENT status property"""
@@ -994,8 +1022,8 @@ class Trace:
     `store_results_in_network`, `changes_made('graph')`, `save_results`.  The token sequence is replayed through the Lean model
     (`net` line: state after every call; `legs` line: Model/IsolationRun.lean `runLegs` rows)."""
 
-    def __init__(self, wntr, wn, kclass):
-        self.wntr, self.wn, self.kclass = wntr, wn, kclass
+    def __init__(self, wntr, wn, kclass, single_line=False):
+        self.wntr, self.wn, self.kclass, self.single_line = wntr, wn, kclass, single_line
         self.lines = []          # dict(header, raw=[tokens incl. markers], segs=[impl segment per non-marker token], rows=[...])
         self.cur = None
         self.problems = []
@@ -1014,7 +1042,7 @@ class Trace:
         self.sim = sim
         clear = not any(n._is_isolated for _, n in wn.nodes()) and not any(l._is_isolated for _, l in wn.links())
         seg = _init_str(wn, sim)
-        if self.cur is None or clear:
+        if self.cur is None or (clear and not self.single_line):
             links = list(wn.links())
             order = [int(nm[1:]) for nm, _ in wn.pipes()] + [int(nm[1:]) for nm, _ in wn.pumps()] + [int(nm[1:]) for nm, _ in wn.valves()]
             src = [int(nm[1:]) for nm, _ in wn.tanks()] + [int(nm[1:]) for nm, _ in wn.reservoirs()]
@@ -1304,6 +1332,8 @@ def gen_elem_run(rng, want=None, pause_mode=None):
             if want and not specials:
                 continue              # control valves cannot be attached to a reservoir / tank
             k = rng.choice(["hpump", "tcv", "cv"])
+        if k == "fcv" and any(x[0] == "fcv" for x in lk):
+            k = "tcv"                 # two ACTIVE flow-control valves in series between two sources fix the same flow twice (singular)
         if k == "hpump":
             lk[j] = ["hpump", 0.05, round(rng.uniform(8, 25), 2)]
         elif k == "tcv":
@@ -1339,7 +1369,9 @@ def gen_elem_run(rng, want=None, pause_mode=None):
         if comp[a] == comp[b]:
             links.append((a, b) if rng.random() < 0.5 else (b, a))
             lk.append(["pipe"])
-    if rng.random() < 0.2:
+    # a tank makes a second source: two ACTIVE control valves in series between two sources over-determine the hydraulics
+    # (PSV fixes a head, FCV a flow: singular at the first solve) -- nothing to do with isolation, kept out of the generator
+    if rng.random() < 0.2 and sum(1 for x in lk if x[0] in ("prv", "psv", "fcv")) <= 1:
         leaves = [v for v in range(1, n) if sum(1 for (a, b) in links if v in (a, b)) == 1 and v not in used]
         if leaves:
             kinds[rng.choice(leaves)] = "T"
@@ -1691,9 +1723,21 @@ class C09(Check):
             else:
                 segs = [im.init_segment()]
                 ever_iso = False
+                xops = []
                 for op in ops:
-                    segs.append(im.apply(op))
-                    if op in ("p",):
+                    if op == "R":
+                        try:
+                            rt, rs = im.restart()
+                        except Exception as e:
+                            failures.append(Failure("restart-raises", "run_sim on the network as the history left it raised %r" % e,
+                                                    {"network": net, "internal0": internal0, "ops": ops, "upto": len(xops), "observed": repr(e)}))
+                            break
+                        xops += rt
+                        segs += rs
+                    else:
+                        xops.append(op)
+                        segs.append(im.apply(op))
+                    if op in ("p", "R"):
                         # property oracle on the real flags: flagged == cut off (independent BFS over link.status)
                         ej, el = im.cut_off()
                         gj = [i for i, (_, nd) in enumerate(im.wn.nodes()) if nd._is_isolated]
@@ -1712,12 +1756,13 @@ class C09(Check):
                                  "flagged_junctions": gj, "flagged_links": gl, "cut_off_junctions": ej, "cut_off_links": el}))
                             break
                 im.ever_iso = ever_iso
+                ops = xops
             lines.append(net_line(net, internal0, ops))
-            impls.append((im, segs))
+            impls.append((im, segs, ops))
         out = vlib.lean_run(DRIVER, "\n".join(lines) + "\n") if lines else []
         if len(out) != len(lines):
             raise vlib.Infra("IsolationDriver returned %d lines for %d requests" % (len(out), len(lines)))
-        for (net, internal0, ops), (im, segs), line, mo in zip(cases, impls, lines, out):
+        for (net, internal0, _), (im, segs, ops), line, mo in zip(cases, impls, lines, out):
             par = self._has_parallel(net)
             ctx.case(("net", line), nontrivial=bool(par or getattr(im, "ever_iso", False)))
             ctx.count("net:parallel" if par else "net:simple")
